@@ -103,6 +103,7 @@ type AlsoProp struct {
 	Props   []string
 	Labels  map[string]bool
 	NoPanic bool
+	Tokens  bool // the completion-token obligations (exactly-once completion or hand-over)
 }
 
 type SpecFunc struct {
@@ -500,6 +501,8 @@ func (cs *Contracts) LoadContractFile(path, pkg string) error {
 			for _, l := range strings.Fields(rest[i+1:]) {
 				if l == "no-panic" {
 					ap.NoPanic = true
+				} else if l == "tokens" {
+					ap.Tokens = true
 				} else {
 					ap.Labels[strings.TrimPrefix(l, "@")] = true
 				}
